@@ -2,15 +2,13 @@ package diodes
 
 import (
 	"context"
-	"sync"
 )
 
-// Waiter will use a conditional mutex to alert the reader to when data is
-// available.
+// Waiter will use a buffered signal channel to alert the reader to when data
+// is available.
 type Waiter struct {
 	Diode
-	mu  sync.Mutex
-	c   *sync.Cond
+	sig chan struct{}
 	ctx context.Context
 }
 
@@ -30,34 +28,27 @@ func WithWaiterContext(ctx context.Context) WaiterConfigOption {
 func NewWaiter(d Diode, opts ...WaiterConfigOption) *Waiter {
 	w := new(Waiter)
 	w.Diode = d
-	w.c = sync.NewCond(&w.mu)
+	w.sig = make(chan struct{}, 1)
 	w.ctx = context.Background()
 
 	for _, opt := range opts {
 		opt(w)
 	}
 
-	go func() {
-		<-w.ctx.Done()
-		VerifAt("waiter.cancel.woken", 0)
-
-		// Mutex is strictly necessary here to avoid a race in Next() (between
-		// w.isDone() and w.c.Wait()) and w.c.Broadcast() here.
-		w.mu.Lock()
-		w.c.Broadcast()
-		VerifAt("waiter.cancel.broadcast", 0)
-		w.mu.Unlock()
-	}()
-
 	return w
 }
 
-// Set invokes the wrapped diode's Set with the given data and uses Broadcast
-// to wake up any readers.
+// Set invokes the wrapped diode's Set with the given data and signals the
+// reader. The signal is buffered: if the reader is not waiting yet (it may be
+// between an empty TryNext and its wait) the signal is kept for it instead of
+// being lost, and Set never blocks.
 func (w *Waiter) Set(data GenericDataType) {
 	w.Diode.Set(data)
 	VerifAt("waiter.set.beforebroadcast", 0)
-	w.c.Broadcast()
+	select {
+	case w.sig <- struct{}{}:
+	default:
+	}
 	VerifAt("waiter.set.afterbroadcast", 0)
 }
 
@@ -65,9 +56,6 @@ func (w *Waiter) Set(data GenericDataType) {
 // new data, it will Wait for set to be called or the context to be done.
 // If the context is done, then nil will be returned.
 func (w *Waiter) Next() GenericDataType {
-	w.mu.Lock()
-	defer w.mu.Unlock()
-
 	for {
 		// Read the cancellation state before looking for data: everything
 		// that was Set before the context was cancelled is then still drained.
@@ -80,7 +68,10 @@ func (w *Waiter) Next() GenericDataType {
 			}
 
 			VerifAt("waiter.next.beforewait", 0)
-			w.c.Wait()
+			select {
+			case <-w.sig:
+			case <-w.ctx.Done():
+			}
 			VerifAt("waiter.next.afterwait", 0)
 			continue
 		}
